@@ -49,7 +49,7 @@ OUTSIDE = ["transpose/moveaxis/swapaxes, squeeze/expand_dims, concatenate/stack/
            "reshape_blockwise", "shapes outside the enumerated list, more than 3 chunks per axis"]
 BOUNDS = {
     "quick": dict(contract="<=3 chunks, sizes >= 0 unbounded, factor in {1,2,3,4}", expand="<=3 chunks, sizes in [1, 2**40], factor in {1,2,3}",
-                  reshape="10 shape pairs (dims <= 6, <= 3 axes), all chunkings with <= 2 chunks per axis"),
+                  reshape="12 shape pairs (dims <= 6, <= 3 axes, two with an empty axis), all chunkings with <= 2 chunks per axis"),
     "thorough": dict(contract="<=4 chunks, factor in {1..6}", expand="<=4 chunks, sizes in [1, 2**40], factor in {1..5}",
                      reshape="24 shape pairs (dims <= 8, <= 4 axes), all chunkings with <= 3 chunks per axis"),
 }
@@ -115,10 +115,10 @@ def mk_expand(n, factors):
 
 
 PAIRS_Q = [((4, 3), (12,)), ((12,), (4, 3)), ((2, 3, 2), (6, 2)), ((2, 3, 2), (2, 6)), ((6, 2), (2, 3, 2)), ((4, 6), (2, 2, 6)),
-           ((1, 6), (6,)), ((6,), (6, 1)), ((2, 1, 3), (2, 3)), ((4, 3), (2, 2, 3))]
+           ((1, 6), (6,)), ((6,), (6, 1)), ((2, 1, 3), (2, 3)), ((4, 3), (2, 2, 3)), ((0, 3), (0,)), ((3, 0), (0,))]
 PAIRS_T = PAIRS_Q + [((2, 2, 2, 2), (4, 4)), ((4, 4), (2, 2, 2, 2)), ((8, 3), (2, 4, 3)), ((2, 4, 3), (8, 3)), ((3, 8), (3, 2, 4)), ((2, 3, 4), (24,)),
                      ((24,), (2, 3, 4)), ((6, 4), (2, 3, 2, 2)), ((2, 3, 2, 2), (6, 4)), ((1, 5, 1), (5,)), ((5,), (1, 5, 1)), ((3, 4, 2), (3, 8)),
-                     ((0, 3), (0,)), ((2, 6), (2, 2, 3))]
+                     ((0, 4), (0, 2, 2)), ((2, 6), (2, 2, 3))]
 
 
 def compositions(n, kmax):
@@ -270,6 +270,6 @@ def mk_structural(kmax, tag):
 
 def obligations(tier):
     if tier == "quick":
-        return [mk_contract(n, (1, 2, 3, 4)) for n in (1, 2, 3)] + [mk_expand(n, (1, 2, 3)) for n in (1, 2, 3)] + [mk_reshape(PAIRS_Q, 2, "10 pairs,<=2 chunks/axis"), mk_structural(2, "5 shapes,<=2 chunks/axis")]
+        return [mk_contract(n, (1, 2, 3, 4)) for n in (1, 2, 3)] + [mk_expand(n, (1, 2, 3)) for n in (1, 2, 3)] + [mk_reshape(PAIRS_Q, 2, "12 pairs,<=2 chunks/axis"), mk_structural(2, "5 shapes,<=2 chunks/axis")]
     return ([mk_contract(n, (1, 2, 3, 4, 5, 6)) for n in (1, 2, 3, 4)] + [mk_expand(n, (1, 2, 3, 4, 5)) for n in (1, 2, 3, 4)]
             + [mk_reshape(PAIRS_T, 3, "24 pairs,<=3 chunks/axis"), mk_structural(3, "5 shapes,<=3 chunks/axis")])
